@@ -681,6 +681,7 @@ def run_case(case, ctx=None):
                     # a loaded checkpoint (writable arrays) is a value: every store built from it starts from the
                     # checkpointed state, whatever happened to the stores built from it before
                     snap0 = impl_state(store, fields)
+                    old_store = store
                     store = ArrayStore.from_raw_dict(raw)
                     its = {}  # iterators belong to the old object
                     twin = ArrayStore.from_raw_dict(raw)
@@ -699,6 +700,19 @@ def run_case(case, ctx=None):
                             return Failure("oracle", f"{where}: a store built from a loaded raw dict after another store "
                                            "built from the same dict was modified does not reproduce the checkpointed "
                                            "store (the dict is not treated as a value)")
+                        if impl_state(old_store, fields) != snap0:
+                            return Failure("oracle", f"{where}: writing to a store rebuilt from the saved raw dict changed "
+                                           "the store that was exported")
+                        for _, m_ in mirrors:
+                            add999(m_, tgt)
+                        add999(old_store, tgt)
+                        add999(twin, tgt)
+                    # the exported store and a second store built from the same checkpoint are driven on as well
+                    keep_mirror(f"the store exported at op#{step} (np.savez)", old_store)
+                    keep_mirror(f"a second store built from the raw dict loaded at op#{step}", twin)
+                    lineage[0] = f" [the store rebuilt from the raw dict saved at op#{step}]"
+                    where = f"op#{step} {kind}{lineage[0]}"
+                    cnt("raw:npz:both-driven-on")
                 else:
                     # direct round trip: an equivalent store, on which the rest of the history runs
                     other = ArrayStore.from_raw_dict(raw)
@@ -725,7 +739,51 @@ def run_case(case, ctx=None):
                         if impl_state(old_store, fields) != old_state:
                             return Failure("oracle", f"{where}: writing to the store rebuilt by from_raw_dict changed the "
                                            "store it was exported from")
+                        for _, m_ in mirrors:
+                            add999(m_, tgt)
+                        add999(old_store, tgt)
+                    # the exported store is driven on as well
+                    keep_mirror(f"the store exported at op#{step} (as_raw_dict)", old_store)
+                    lineage[0] = f" [the store rebuilt by from_raw_dict at op#{step}]"
+                    where = f"op#{step} {kind}{lineage[0]}"
+                    cnt("raw:direct:both-driven-on")
                 drv.ask("raw")
+            elif kind == "ckpt":
+                how = op["how"]
+                alive = read_everything(store) if op.get("warm", True) else None
+                try:
+                    cp = copy_store(store, how, op.get("proto"))
+                except Exception as e:  # pylint: disable=broad-except
+                    return Failure("oracle", f"{where}: a {how} copy of the store could not be made: "
+                                   f"{type(e).__name__}: {e}")
+                a0, b0 = impl_state(store, fields), impl_state(cp, fields)
+                if a0 != b0:
+                    return Failure("oracle", f"{where}: the {how} copy of the store differs from it: {b0} vs {a0}")
+                del alive
+                if op.get("main", "copy") == "copy":
+                    other, olabel = store, f"the original of the {how} copy taken at op#{step}"
+                    store = cp
+                    its = {}  # iterators belong to the old object
+                    lineage[0] = f" [the {how} copy taken at op#{step}]"
+                    where = f"op#{step} {kind}{lineage[0]}"
+                else:
+                    other, olabel = cp, f"the {how} copy taken at op#{step}"
+                cnt(f"ckpt:{how}:history-continues-on-{op.get('main', 'copy')}")
+                cnt("ckpt:after-every-property-was-read" if op.get("warm", True) else "ckpt:no-extra-reads-before-copy")
+                if step == 0:
+                    cnt("ckpt:of-a-fresh-store")
+                if op.get("probe") and ref_cap > 0:
+                    # independent objects: a row added to one does not show in the other
+                    tgt, f_ = probe_add(where)
+                    if f_:
+                        return f_
+                    if impl_state(other, fields) != a0:
+                        return Failure("oracle", f"{where}: a row was added to the store{lineage[0]}; {olabel} changed")
+                    for _, m_ in mirrors:
+                        add999(m_, tgt)
+                    add999(other, tgt)
+                    cnt("ckpt:independence-probe")
+                keep_mirror(olabel, other)
             elif kind == "iterall":
                 # a complete pass over the store (oracle only): each occupied index exactly once, in occupied_list
                 # order, each entry the row written at its index -- at any size (a block-wise iterator must not lose
@@ -799,6 +857,30 @@ def run_case(case, ctx=None):
                 st["data"] = sorted(st["data"])
             if a != b:
                 return Failure("corr", f"{where}: state impl={a} model={b}")
+            for label, m_ in mirrors:
+                am = impl_state(m_, fields)
+                if am["bad"]:
+                    return Failure("oracle", f"{where}: {label}: {am['bad']}")
+                am.pop("bad")
+                if not (am["len"] == len(am["occ"]) == len(am["olist"]) == len(am["data"])
+                        and sorted(am["olist"]) == am["occ"]):
+                    return Failure("oracle", f"{where}: {label}: bookkeeping inconsistent: {am} vs written {want_data}")
+                am["olist"] = canon(am["olist"])
+                am["data"] = sorted(am["data"])
+                if am != a:
+                    return Failure("oracle", f"{where}: {label} was driven with the same calls as the store carrying the "
+                                   f"history{lineage[0]} and differs from it (and from what was written): {am} vs {a}")
+                if list(m_.field_list) != list(fields):
+                    return Failure("oracle", f"{where}: {label}: field_list {list(m_.field_list)} != declared order "
+                                   f"{list(fields)}")
+                cnt("mirror:states-compared")
+        # a complete pass over every store that is still around: each occupied index once, in occupied_list order
+        for label, m_ in [["the store carrying the history" + lineage[0], store]] + mirrors:
+            got_all = [(int(e["index"]), decode_row(fields, lambda name, e=e: e[name])) for e in m_]
+            want_all = [(int(i), ref.get(int(i))) for i in m_.occupied_list]
+            if got_all != want_all or len(got_all) != len(ref):
+                return Failure("oracle", f"end of history: {label}: a full iteration gave {got_all!r:.200}, "
+                               f"occupied_list / written rows give {want_all!r:.200}")
         return None
     finally:
         drv.close()
@@ -830,14 +912,16 @@ def gen_large(rng):
             cap = cap * 2 + 1
     ops.append({"op": "raw", "npz": False})
     ops.append({"op": "iterall"})
+    sprinkle_ckpt(rng, ops, 0.7)
     return {"cap": cap0, "layout": layout, "ops": ops}
 
 
 def run(ctx):
-    ctx.explore("histories", gen_case, run_case, ctx.n(600, 30000), nontrivial=nontrivial,
+    runner = lambda case: run_case(case, ctx)
+    ctx.explore("histories", gen_case, runner, ctx.n(600, 30000), nontrivial=nontrivial,
                 time_budget=40 if ctx.quick else 500)
-    ctx.explore("large", gen_large, run_case, ctx.n(3, 60), time_budget=20 if ctx.quick else 200)
+    ctx.explore("large", gen_large, runner, ctx.n(3, 60), time_budget=20 if ctx.quick else 200)
 
 
 def replay(ctx, case):
-    return run_case(case)
+    return run_case(case, ctx)
